@@ -41,7 +41,7 @@ def check(ctx):
         "over the polyhedral model (exact comparison); the result is compared with the contract obtained by substituting the name "
         "in every constraint (meaning of assumptions, and of assumptions with guarantees, decided exactly; interface lists "
         "compared exactly). non-trivial = the source occurs in the contract; distinct by canonical input")
-    proved = ctx.prove("props/C16.v", ["proofs/PolyDomainFacts.v", "proofs/TermFacts.v", "proofs/IfaceFacts.v", "proofs/TermGenRename.v", "proofs/TermGenRemove.v", "proofs/TermGenCore.v"])
+    proved = ctx.prove("props/C16.v", ["proofs/PolyDomainFacts.v", "proofs/TermFacts.v", "proofs/IfaceFacts.v", "proofs/TermGenRename.v", "proofs/TermGenRemove.v", "proofs/TermGenCore.v", "proofs/WrapGenRename.v"])
     ctx.build(["model/PolyDomain.vo", "base/Farkas.vo"])
     rng = random.Random(ctx.seed + 16)
     n = (200 if ctx.quick else 4000) * (1 if proved else 3)
@@ -87,6 +87,7 @@ def check(ctx):
         # expected by substitution, mapping after mapping
         exp = {"a": list(c["a"]), "g": list(c["g"]), "i": list(ins), "o": list(outs)}
         clash = False
+        dead = False
         for s, u in maps:
             if s == u:
                 continue
@@ -96,6 +97,16 @@ def check(ctx):
             if s in exp["i"] or s in exp["o"]:
                 exp = {"a": subst_terms(exp["a"], s, u), "g": subst_terms(exp["g"], s, u),
                        "i": subst_iface(exp["i"], s, u), "o": subst_iface(exp["o"], s, u)}
+                if not pp.is_feasible(exp["a"] + exp["g"]):
+                    # merging two variables made the constraints unsatisfiable: every later step starts from a contract
+                    # the constructor refuses (ValueError), so nothing further can be demanded of this sequence
+                    dead = True
+                    break
+        if dead:
+            hist["sequence_hits_unsatisfiable_contract"] = hist.get("sequence_hits_unsatisfiable_contract", 0) + 1
+            if okind == "err" and v[0] == 6:
+                ctx.violation("rename:escape:" + v[1], "undocumented exception escaped from rename", dict(payload, exception=v[1] + ": " + v[2]))
+            continue
         if any(s in ins + outs for s, _ in maps):
             seen.add((gen.key_of(c["a"] + c["g"]), tuple(ins), tuple(outs), tuple(maps)))
         if clash:
